@@ -4,16 +4,8 @@ namespace D2V.CompileLeaves
 
 /-! ### matchPattern -/
 
-theorem isPrefixOf_length {p s : Bytes} (h : p.isPrefixOf s = true) : p.length ≤ s.length := by
-  induction p generalizing s with
-  | nil => simp
-  | cons a p ih =>
-    cases s with
-    | nil => simp [List.isPrefixOf] at h
-    | cons b s =>
-      simp [List.isPrefixOf] at h
-      have := ih h.2
-      simp; omega
+theorem isPrefixOf_length {p s : Bytes} (h : p.isPrefixOf s = true) : p.length ≤ s.length :=
+  (List.isPrefixOf_iff_prefix.mp h).length_le
 
 /-- `strings.Index` returns an offset at which the needle fits inside the haystack -/
 theorem indexFrom_bound {p s : Bytes} {k j : Nat} (h : indexFrom p s k = some j) :
@@ -42,15 +34,19 @@ theorem index_bound {p s : Bytes} {j : Nat} (h : index s p = some j) : j + p.len
 theorem sliceFrom_ok {s : Bytes} {k : Nat} (h : k ≤ s.length) : sliceFrom s k = .ok (s.drop k) := by
   simp [sliceFrom, h]
 
-/-- the current `matchPattern` loop never slices out of range — for every name and every pattern, whatever
-    `strings.ToLower` returned -/
-theorem matchGo_total (pat : List Part) : ∀ (ls : Bytes) (c : Crash), matchGo ls pat ≠ .error c := by
-  induction pat using List.rec with
-  | nil => intro ls c; simp [matchGo]
-  | cons p rest ih =>
-    intro ls c
-    cases rest with
-    | nil =>
+theorem matchGo_total_aux : ∀ (n : Nat) (pat : List Part), pat.length ≤ n →
+    ∀ (ls : Bytes) (c : Crash), matchGo ls pat ≠ .error c := by
+  intro n
+  induction n with
+  | zero =>
+    intro pat h ls c
+    have : pat = [] := List.eq_nil_of_length_eq_zero (by omega)
+    subst this; simp [matchGo]
+  | succ n ih =>
+    intro pat h ls c
+    match pat, h with
+    | [], _ => simp [matchGo]
+    | [p], _ =>
       unfold matchGo
       by_cases hs : p.isStar
       · simp [hs]
@@ -58,7 +54,7 @@ theorem matchGo_total (pat : List Part) : ∀ (ls : Bytes) (c : Crash), matchGo 
         by_cases hp : p.low.isPrefixOf ls
         · simp [hp, sliceFrom_ok (isPrefixOf_length hp), matchGo]
         · simp [hp]
-    | cons q rest' =>
+    | p :: q :: rest', h =>
       unfold matchGo
       by_cases hs : p.isStar
       · simp only [hs, if_true]
@@ -66,19 +62,17 @@ theorem matchGo_total (pat : List Part) : ∀ (ls : Bytes) (c : Crash), matchGo 
         | none => simp
         | some j =>
           simp only [sliceFrom_ok (index_bound hi)]
-          -- the recursive call is on `rest'`, a suffix of `q :: rest'`
-          have : ∀ (ls : Bytes) (c : Crash), matchGo ls rest' ≠ .error c := by
-            intro ls c
-            have h2 := ih
-            -- ih is about (q :: rest'); derive the statement for rest' by strong induction instead
-            exact matchGo_total rest' ls c
-          exact this _ c
+          exact ih rest' (by simp at h; omega) _ c
       · simp only [hs]
         by_cases hp : p.low.isPrefixOf ls
         · simp only [hp, if_true, sliceFrom_ok (isPrefixOf_length hp)]
-          exact ih _ c
+          exact ih (q :: rest') (by simp at h ⊢; omega) _ c
         · simp [hp]
-termination_by pat.length
+
+/-- the current `matchPattern` loop never slices out of range — for every name and every pattern, whatever
+    `strings.ToLower` returned -/
+theorem matchGo_total (pat : List Part) (ls : Bytes) (c : Crash) : matchGo ls pat ≠ .error c :=
+  matchGo_total_aux pat.length pat (Nat.le_refl _) ls c
 
 theorem matchPattern_total (reserved : Bool) (ls : Bytes) (pat : List Part) (c : Crash) :
     matchPattern reserved ls pat ≠ .error c := by
@@ -101,15 +95,19 @@ theorem C07_cx_glob_nonascii :
 /-- …and the same input through the current code -/
 example : matchPattern false (demoLower [0xC8, 0xBA]) [⟨false, [0xE2, 0xB1, 0xA5]⟩, ⟨true, star⟩] = .ok true := by decide
 
-/-- The old loop was safe exactly where lower-casing preserves lengths. -/
-theorem matchOld_total_of_length_preserving (lower : Bytes → Bytes) (hl : ∀ x, (lower x).length = x.length)
-    (pat : List Bytes) : ∀ (s : Bytes) (c : Crash), matchOld lower s pat ≠ .error c := by
-  induction pat using List.rec with
-  | nil => intro s c; simp [matchOld]
-  | cons p rest ih =>
-    intro s c
-    cases rest with
-    | nil =>
+theorem matchOld_total_aux (lower : Bytes → Bytes) (hl : ∀ x, (lower x).length = x.length) :
+    ∀ (n : Nat) (pat : List Bytes), pat.length ≤ n → ∀ (s : Bytes) (c : Crash), matchOld lower s pat ≠ .error c := by
+  intro n
+  induction n with
+  | zero =>
+    intro pat h s c
+    have : pat = [] := List.eq_nil_of_length_eq_zero (by omega)
+    subst this; simp [matchOld]
+  | succ n ih =>
+    intro pat h s c
+    match pat, h with
+    | [], _ => simp [matchOld]
+    | [p], _ =>
       unfold matchOld
       by_cases hs : p = star
       · simp [hs]
@@ -119,7 +117,7 @@ theorem matchOld_total_of_length_preserving (lower : Bytes → Bytes) (hl : ∀ 
           rw [hl, hl] at this
           simp [hp, sliceFrom_ok this, matchOld]
         · simp [hp]
-    | cons q rest' =>
+    | p :: q :: rest', h =>
       unfold matchOld
       by_cases hs : p = star
       · simp only [hs, if_true]
@@ -129,15 +127,19 @@ theorem matchOld_total_of_length_preserving (lower : Bytes → Bytes) (hl : ∀ 
           have := index_bound hi
           rw [hl, hl] at this
           simp only [sliceFrom_ok this]
-          exact matchOld_total_of_length_preserving lower hl rest' _ c
+          exact ih rest' (by simp at h; omega) _ c
       · simp only [hs, if_false]
         by_cases hp : (lower p).isPrefixOf (lower s)
         · have := isPrefixOf_length hp
           rw [hl, hl] at this
           simp only [hp, if_true, sliceFrom_ok this]
-          exact ih _ c
+          exact ih (q :: rest') (by simp at h ⊢; omega) _ c
         · simp [hp]
-termination_by pat.length
+
+/-- The old loop was safe exactly where lower-casing preserves lengths. -/
+theorem matchOld_total_of_length_preserving (lower : Bytes → Bytes) (hl : ∀ x, (lower x).length = x.length)
+    (pat : List Bytes) (s : Bytes) (c : Crash) : matchOld lower s pat ≠ .error c :=
+  matchOld_total_aux lower hl pat.length pat (Nat.le_refl _) s c
 
 /-! ### compileArray -/
 
@@ -189,24 +191,29 @@ example : compileArray [.import_ false .fieldEmpty] = .ok ⟨[], 1⟩ := by
 
 /-! ### compileThemeOverrides -/
 
+theorem themeOverrides_ok (fs : List TField) (inv : ∀ f ∈ fs, f.hasPrimary = true → f.hasPrimaryKey = true) :
+    ∃ n, themeOverrides fs = .ok n := by
+  induction fs with
+  | nil => exact ⟨0, rfl⟩
+  | cons f rest ih =>
+    obtain ⟨n, hn⟩ := ih (fun g hg => inv g (List.mem_cons_of_mem _ hg))
+    unfold themeOverrides
+    simp only [hn]
+    by_cases hp : f.hasPrimary
+    · have hk := inv f (List.mem_cons_self) hp
+      simp only [hp, hk, Bool.not_true, Bool.false_eq_true, if_false, if_true]
+      split
+      · exact ⟨_, rfl⟩
+      · exact ⟨_, rfl⟩
+    · simp only [hp, Bool.not_false, if_true]
+      exact ⟨_, rfl⟩
+
 /-- A field that has a primary value was last set by some key (`ensureField` appends the reference before
     `_compileField` stores `Primary_`); under that invariant the current function is total. -/
 theorem themeOverrides_total (fs : List TField) (inv : ∀ f ∈ fs, f.hasPrimary = true → f.hasPrimaryKey = true)
     (c : Crash) : themeOverrides fs ≠ .error c := by
-  induction fs with
-  | nil => simp [themeOverrides]
-  | cons f rest ih =>
-    unfold themeOverrides
-    have ih' := ih (fun g hg => inv g (List.mem_cons_of_mem _ hg))
-    cases hr : themeOverrides rest with
-    | error e => exact absurd hr (by intro h; exact ih' (by rw [h]))
-    | ok n =>
-      simp only
-      by_cases hp : f.hasPrimary
-      · have hk := inv f (List.mem_cons_self) hp
-        simp [hp, hk]
-        split <;> simp
-      · simp [hp]
+  obtain ⟨n, hn⟩ := themeOverrides_ok fs inv
+  rw [hn]; simp
 
 example : themeOverrides [⟨"N1", true, true, true⟩, ⟨"XX", true, false, true⟩] = .ok 1 := by decide
 
@@ -273,7 +280,7 @@ theorem C07_cx_class_self_reference (n : Nat) :
     simp [applyClassOld, ClassEnv.refs, List.find?, ih]
 
 /-- classes (with multiplicity) that are not yet on the stack -/
-def free (env : ClassEnv) (stack : List String) : Nat := (env.filter fun kv => !stack.contains kv.1).length
+def free (env : ClassEnv) (stack : List String) : Nat := env.countP fun kv => !stack.contains kv.1
 
 theorem refs_mem {env : ClassEnv} {c : String} {rs : List String} (h : env.refs c = some rs) :
     ∃ kv ∈ env, kv.1 = c := by
@@ -285,53 +292,45 @@ theorem refs_mem {env : ClassEnv} {c : String} {rs : List String} (h : env.refs 
     have := List.find?_some hf
     simpa using this
 
+theorem notOn_push {stack : List String} {c x : String} (h : (!(c :: stack).contains x) = true) :
+    (!stack.contains x) = true := by
+  simp only [List.contains_cons, Bool.not_or, Bool.and_eq_true] at h
+  exact h.2
+
+theorem free_push_le (env : ClassEnv) (stack : List String) (c : String) : free env (c :: stack) ≤ free env stack := by
+  unfold free
+  exact List.countP_mono_left (fun x _ hx => notOn_push hx)
+
 theorem free_push_lt {env : ClassEnv} {stack : List String} {c : String}
     (hc : stack.contains c = false) (hm : ∃ kv ∈ env, kv.1 = c) : free env (c :: stack) < free env stack := by
-  unfold free
   obtain ⟨kv, hkv, rfl⟩ := hm
   induction env with
   | nil => simp at hkv
   | cons e rest ih =>
-    simp only [List.filter_cons]
+    have hle := free_push_le rest stack kv.1
+    unfold free at hle ih ⊢
+    rw [List.countP_cons, List.countP_cons]
     rcases List.mem_cons.mp hkv with h | h
     · subst h
-      have hle : (rest.filter fun kv' => !(kv.1 :: stack).contains kv'.1).length ≤
-          (rest.filter fun kv' => !stack.contains kv'.1).length := by
-        apply List.length_le_of_sublist
-        apply List.monotone_filter_right
-        intro x
-        simp only [List.contains_cons, Bool.not_eq_true', Bool.or_eq_false_iff, Bool.not_eq_eq_eq_not,
-          Bool.not_true, and_imp]
-        intro _ h2; simpa using h2
-      simp [hc]
+      have h1 : (!(kv.1 :: stack).contains kv.1) = false := by simp
+      have h2 : (!stack.contains kv.1) = true := by rw [hc]; rfl
+      simp only [h1, h2, if_true]
+      simp only [Bool.false_eq_true, if_false]
       omega
     · have := ih h
-      by_cases h1 : stack.contains e.1
-      · have h2 : (kv.1 :: stack).contains e.1 = true := by
-          simp only [List.contains_cons, Bool.or_eq_true]; right; exact h1
-        simp [h1, h2]; simpa using this
-      · by_cases h2 : (kv.1 :: stack).contains e.1
-        · simp only [h2, h1]
-          simp
-          have hle : (rest.filter fun kv' => !(kv.1 :: stack).contains kv'.1).length ≤
-              (rest.filter fun kv' => !stack.contains kv'.1).length := by
-            apply List.length_le_of_sublist
-            apply List.monotone_filter_right
-            intro x
-            simp only [List.contains_cons, Bool.not_eq_true', Bool.or_eq_false_iff, Bool.not_eq_eq_eq_not,
-              Bool.not_true, and_imp]
-            intro _ h2; simpa using h2
-          simp at hle ⊢; omega
-        · simp only [h2, h1]
-          simp
-          simpa using this
+      by_cases hn : (!(kv.1 :: stack).contains e.1) = true
+      · have ho := notOn_push hn
+        simp only [hn, ho, if_true]
+        omega
+      · rw [if_neg hn]
+        split <;> omega
 
 theorem foldl_ok {α : Type} (f : α → Except Crash Nat) (rs : List α) (init : Nat)
     (h : ∀ r ∈ rs, ∃ n, f r = .ok n) :
-    ∃ m, rs.foldl (fun acc r => match acc, f r with
-        | .error e, _ => .error e
-        | _, .error e => .error e
-        | .ok a, .ok b => .ok (a + b)) (.ok init) = .ok m := by
+    ∃ m, rs.foldl (fun (acc : Except Crash Nat) r => match acc, f r with
+        | .error e, _ => Except.error e
+        | _, .error e => Except.error e
+        | .ok a, .ok b => Except.ok (a + b)) (Except.ok init) = Except.ok m := by
   induction rs generalizing init with
   | nil => exact ⟨init, rfl⟩
   | cons r rest ih =>
@@ -350,8 +349,8 @@ theorem applyClass_fuel_enough (env : ClassEnv) : ∀ (fuel : Nat) (stack : List
     intro stack c h
     unfold applyClass
     by_cases hs : stack.contains c
-    · simp [hs]
-    · simp only [hs]
+    · rw [if_pos hs]; exact ⟨0, rfl⟩
+    · rw [if_neg hs]
       cases hr : env.refs c with
       | none => simp
       | some rs =>
@@ -365,7 +364,7 @@ theorem applyClass_total (env : ClassEnv) (c : String) (e : Crash) :
     applyClass env (env.length + 1) [] c ≠ .error e := by
   have hf : free env [] < env.length + 1 := by
     unfold free
-    have := List.length_filter_le (fun kv : String × List String => !([] : List String).contains kv.1) env
+    have := List.countP_le_length (p := fun kv : String × List String => !([] : List String).contains kv.1) (l := env)
     omega
   obtain ⟨n, hn⟩ := applyClass_fuel_enough env (env.length + 1) [] c hf
   rw [hn]; simp
